@@ -140,11 +140,28 @@ def is_ascii(s):
 
 
 # ---- case builders: (coq expr, info) ----------------------------------------------------------
+class Crash(Exception):
+    """the real function raised something it never raises on the unchanged tree"""
+
+    def __init__(self, call, exc):
+        Exception.__init__(self, "%s raised %s: %s" % (call, type(exc).__name__, exc))
+        self.call = call
+
+
+def guarded(call, thunk, allowed=()):
+    try:
+        return thunk()
+    except allowed:
+        raise
+    except Exception as e:  # noqa: BLE001
+        raise Crash(call, e)
+
+
 def case_p2s(F, rng):
     s2p, p2s, dct, Version, Invalid = F
     v = gen_version(rng)
     sp = spelling(rng, v)
-    out = p2s(sp)
+    out = guarded("pep440_to_semver(%r)" % sp, lambda: p2s(sp))
     return "str_agree (p2s %s) %s" % (g_v(v), g_str(out)), dict(kind="p2s", v=v, spelling=sp, out=out)
 
 
@@ -221,7 +238,7 @@ def case_s2p(F, rng):
     s2p, p2s, dct, Version, Invalid = F
     s = gen_semver_string(rng)
     try:
-        out, raised = s2p(s), False
+        out, raised = guarded("semver_to_pep440(%r)" % s, lambda: s2p(s), allowed=(ValueError,)), False
     except ValueError:
         out, raised = "", True
     return ("s2p_agree (semver_to_pep440 %s) %s %s" % (g_str(s), gbool(raised), g_str(out)),
@@ -233,7 +250,7 @@ def case_p2s_string(F, rng):
     s2p, p2s, dct, Version, Invalid = F
     v = gen_version(rng)
     s = canonical_zeros(rng, v)
-    out = p2s(s)
+    out = guarded("pep440_to_semver(%r)" % s, lambda: p2s(s))
     return "ostr_agree (pep440_to_semver %s) %s" % (g_str(s), g_str(out)), dict(kind="p2s-string", s=s, out=out)
 
 
@@ -260,7 +277,7 @@ def case_detect(F, rng):
             v, w = w, v
         prev = spelling(rng, w)
     cur = spelling(rng, v)
-    out = dct(cur, prev)
+    out = guarded("detect_change_type(%r, %r)" % (cur, prev), lambda: dct(cur, prev))
     if out not in CLASSES:
         return "1", dict(kind="detect", v=v, w=w, cur=cur, prev=prev, out=out)
     return ("detect_change_type %s %s - %d" % (g_v(v), gopt(g_v, w), CLASSES[out]),
